@@ -7,6 +7,7 @@
 //!   sim selftest [n]                       determinism proof: every seed twice, digests compared
 
 mod checks;
+mod conc;
 mod http;
 mod model;
 mod ops;
@@ -16,6 +17,7 @@ mod rng;
 mod sched;
 mod seq;
 mod twin;
+mod vfs;
 mod wire;
 mod world;
 
@@ -82,8 +84,13 @@ fn worker(args: &[String]) -> i32 {
     let base_seed: u64 = args[4].parse().unwrap();
     let outdir = PathBuf::from(&args[5]);
     quiet_panics();
+    report::set_focus(Some(prop.clone()));
     let known = load_known();
-    let jobs: Vec<Job> = checks::jobs_for(prop);
+    let mut jobs: Vec<Job> = checks::jobs_for(prop);
+    if let Ok(f) = std::env::var("VERIF_JOBS") {
+        // development aid: restrict to jobs whose name contains the filter
+        jobs.retain(|j| j.name.contains(&f));
+    }
     let cap_s = if thorough { env_u64("VERIF_THOROUGH_CAP_S", 240) } else { env_u64("VERIF_QUICK_CAP_S", 18) } as f64;
     let scale_pct = env_u64("VERIF_SCALE_PCT", 100);
     let mut agg = Agg::default();
@@ -122,8 +129,13 @@ fn worker(args: &[String]) -> i32 {
             if let Some(v) = hit {
                 // minimise, then decide known / new
                 let orig = plan::size(&p);
-                let (minp, _) = plan::minimise(&p, prop, &v.oracle, 300, 30.0);
-                let mout = plan::exec(&minp);
+                let (mut minp, _) = plan::minimise(&p, prop, &v.oracle, 300, 30.0);
+                let mut mout = plan::exec(&minp);
+                if !mout.has(prop, &v.oracle) {
+                    // the minimised plan must fail the same way; otherwise report the original
+                    minp = p.clone();
+                    mout = plan::exec(&minp);
+                }
                 let mv = mout
                     .violations
                     .iter()
@@ -357,6 +369,7 @@ fn replay(path: &str) -> i32 {
         }
     };
     println!("seed={} scenario={} property={} oracle={}", rf.seed, rf.scenario, rf.property, rf.oracle);
+    report::set_focus(Some(rf.property.clone()));
     let out = plan::exec(&rf.plan);
     world::cleanup_scratch();
     if let Some(e) = &out.harness_error {
